@@ -29,6 +29,9 @@ AG = "black_it.schedulers.rl.agents.epsilon_greedy:MABEpsilonGreedy"
 
 
 def run(ctx: Context) -> None:
+    # one agent's estimates and draws are its own: no module- or class-level state in the agents (module-state rule of C05, kept to the agents package)
+    from . import c18 as _c18
+    ctx.rule(_c18.no_shared_tables, "black_it/schedulers/rl/agents/")
     ctx.rule(reward)
     ctx.rule(learn)
     ctx.rule(policy)
